@@ -746,6 +746,9 @@ func (c *Client) Start(msg *Message, handler Handler) error {
 			return err
 		}
 		if err := c.a.Start(msg.TransactionID, d); err != nil {
+			// Not started: the handler must never be invoked.
+			c.deleteIfCurrent(msg.TransactionID, t)
+
 			return err
 		}
 	}
